@@ -1299,8 +1299,9 @@ class C16(Check):
         "real solve call of the run is replayed through NewtonDriver and its residual re-evaluated.",
         design_ref="DESIGN.md §5 C16",
         note="modelled, not verified: the inside of _compute_next_timestep_and_run_presolve_controls_and_rules (an oracle with the contract "
-        "prev < t' <= cur, checked on every observed call; proved for time conditions in Lemmas/Time, Lemmas/Sched; contract_needed shows "
-        "run_sim relies on it), NewtonSolver/scipy (status class only), the world calls inside the loop (feasibility controls, graph / model "
+        "prev < t' <= cur; DISCHARGED for time conditions and rules by plugging the C04 scheduler model into the loop "
+        "(sched_world_contract, run_terminates_time_conditions); for tank-level conditions checked on every observed call; "
+        "contract_needed shows run_sim relies on it), NewtonSolver/scipy (status class only), the world calls inside the loop (feasibility controls, graph / model "
         "updates, store_results_in_network: positions recorded in the generated program, effect inside the oracles), pandas; oracle only: "
         "finite numbers and prefix VALUES (1e-6 relative, WNTR runs are not bit-reproducible) on the real tables; Newton: the model "
         "compares in exact rationals, the code in doubles (borderline comparisons are counted, not judged); the tie between the Newton "
